@@ -238,6 +238,33 @@ theorem safe_stripTrail (p : CStr) (h : safe p = true) : safe (stripTrailSlash p
 
 theorem safe_dot : safe dot = true := by decide
 
+/-- the part in front of the last slash of a safe path is not empty (the path would be absolute) -/
+theorem cut_ne_nil (p : CStr) (h : safe p = true) (hs : '/' ∈ p) :
+    ((p.reverse.dropWhile (· ≠ '/')).drop 1).reverse ≠ [] := by
+  rcases split_last_slash p with ⟨h1, _, _⟩ | ⟨z, h1, h2⟩
+  · exact absurd hs h1
+  · rw [← h2]
+    intro hz
+    rw [hz] at h1
+    rw [safe_iff] at h
+    apply h.1
+    rw [h1]; rfl
+
+theorem listDir_ne_nil (p : CStr) (h : safe p = true) (h0 : p ≠ []) : listDir p ≠ [] := by
+  unfold listDir
+  split
+  · exact h0
+  · simp only
+    split
+    · rename_i hc; exact cut_ne_nil p h hc.1
+    · exact h0
+
+theorem parentDir_ne_nil (p : CStr) (h : safe p = true) : parentDir p ≠ [] := by
+  unfold parentDir
+  split
+  · rename_i hc; exact cut_ne_nil p h hc
+  · simp [dot]
+
 theorem safe_listDir (p : CStr) (h : safe p = true) : safe (listDir p) = true := by
   unfold listDir
   split
